@@ -27,6 +27,9 @@ def _target(f, p: str, route: str):
     """Return (group handle, key) to use for path p."""
     if route == "abs":
         return f, p
+    if route.startswith("via:"):
+        # the absolute path p, addressed through the handle of ANOTHER group
+        return f[route[4:]], p
     parent, last = _split(p)
     return f[parent], last
 
